@@ -8,6 +8,7 @@ from spec import padding as SP
 from pyvc.engine import LoopSpec
 from pyvc.tstr import TS, Rep, Text, Cond
 from .render_kitty import class_literals
+from .render_block import *   # noqa: F401,F403  (split-cell structure of the block render: what content() relies on)
 from .common import *
 
 URW = "widget/_urwid.py"
@@ -342,7 +343,16 @@ def content_unit(kind, h_align, v_align, cols_given, rows_given):
         eng.methods[("Cell", "__getslice__")] = m_cell_slice
 
         # ---- objects
-        image = st.new({"text": "BlockImage", "kitty": "KittyImage", "iterm2": "ITerm2Image"}[kind], {})
+        icls = {"text": "BlockImage", "kitty": "KittyImage", "iterm2": "ITerm2Image"}[kind]
+        # the widget's image may have been rendered again since this canvas was made (another widget size, another widget sharing the
+        # image): whatever the image says about its size NOW is unrelated to the size this canvas was built with
+        now_w, now_h = z3.Ints("image_rendered_width_now image_rendered_height_now")
+        st.pc += [now_w >= 1, now_h >= 1]
+        for an in ("rendered_size", "_size", "size"):
+            eng.attrs[(icls, an)] = lambda e, s, v: [((now_w, now_h), s)]
+        eng.attrs[(icls, "rendered_width")] = lambda e, s, v: [(now_w, s)]
+        eng.attrs[(icls, "rendered_height")] = lambda e, s, v: [(now_h, s)]
+        image = st.new(icls, {})
         dw, dc = z3.Ints("widget_disguise canvas_disguise")
         st.pc += [dw >= 0, dw <= 2, dc >= 0, dc <= 2]
         widget = st.new("UrwidImage", {"_ti_image": image, "_ti_h_align": h_align, "_ti_v_align": v_align, "_ti_disguise_state": dw})
